@@ -64,9 +64,10 @@ int main(int argc, char** argv)
         rc = r.verdict(!vg && nerr == 0, std::string("formatted summary, on-demand ESmry::get(): valgrind memcheck ") + (vg ? "reports invalid reads (strtof runs past the 17-byte buffer)" : "is clean")
                        + "; " + std::to_string(nerr) + " wrong values" + (nerr ? ", first: " + first : ""));
     } else {
-        const bool fmt = r.is("fmt_element_pos");
+        const bool fmt = r.is("fmt_");
         long p = r.has("paramPos") ? r.integer("paramPos") : 1000;
-        const int nvect = (int)std::min<long>(std::max<long>(p + 2, 1010), 4600);
+        // block-size obligations have no input to decode: the case spans more than four 1000-element blocks
+        const int nvect = r.is("block_size") ? 4600 : (int)std::min<long>(std::max<long>(p + 2, 1010), 4600);
         writeCase(dir, nvect, fmt);
         std::string first; const int nerr = readOnDemand(dir, nvect, fmt, first);
         rc = r.verdict(nerr == 0, std::string(fmt ? "formatted" : "unformatted") + " summary with " + std::to_string(nvect) + " vectors read on demand: " + std::to_string(nerr) + " wrong values" + (nerr ? ", first: " + first : ""));
